@@ -127,7 +127,7 @@ def build_term(ex, jnp, name, D, N, L, scale):
     if name == "grayscott":
         from exponax.stepper.reaction._gray_scott import GrayScottNonlinearFun
 
-        return GrayScottNonlinearFun(D, N, dealiasing_fraction=0.5, feed_rate=0.04 * abs(scale), kill_rate=0.06)
+        return GrayScottNonlinearFun(D, N, dealiasing_fraction=0.5, feed_rate=0.035 * abs(scale), kill_rate=0.055)
     raise ValueError(name)
 
 
@@ -211,7 +211,7 @@ def oracle(name, fg, ch, L, scale):
         cube = fg.hat(u**3)
         return scale * sum(fg.d(cube, a, 2) for a in range(D))
     if name == "grayscott":
-        f, kr = 0.04 * abs(scale), 0.06
+        f, kr = 0.035 * abs(scale), 0.055
         a, b = u[:, 0], u[:, 1]
         return fg.hat(np.stack([f * (1 - a) - a * b * b, -(f + kr) * b + a * b * b], axis=1))
     raise ValueError(name)
